@@ -78,7 +78,15 @@ func (g *exprGen) group(depth int, allowDirect bool, parens int) *dExpr {
 	return e
 }
 
-const verifIdentAlphabet = "a-c_"
+const verifIdentAlphabetDefault = "a-c_"
+
+// verifIdentAlpha: the alphabet of generated names; CASE=1: names that differ in letter case only
+func verifIdentAlpha() string {
+	if zzverif.Param("CASE", 0) == 1 {
+		return "aA"
+	}
+	return verifIdentAlphabetDefault
+}
 
 // genDoc: a model or module document with one relation under test (full
 // shape), optional sibling relations / types / conditions with symbolic names.
@@ -104,9 +112,14 @@ func genDoc() *dDoc {
 			d.module = []string{"m", "core-1", "model", "schema", "type", "relation", "module", "extend"}[zzverif.Choose("module-name", 8)]
 		}
 	}
+	if zzverif.Param("NOTYPES", 0) == 1 && zzverif.Choose("no-types", 2) == 1 {
+		// a document without any type (the grammar has typeDef*): header and conditions only
+		genConds(d, n)
+		return d
+	}
 	d.types = append(d.types, dType{name: "user"})
 	g := &exprGen{budget: zzverif.Param("NODES", 4)}
-	t := dType{name: zzverif.Str("type", 1, n, verifIdentAlphabet)}
+	t := dType{name: zzverif.Str("type", 1, n, verifIdentAlpha())}
 	if !fixLayout {
 		t.comment = zzverif.Choose("comment", 2) == 1
 	}
@@ -138,20 +151,25 @@ func genDoc() *dDoc {
 	} else {
 		expr = g.group(zzverif.Param("DEPTH", 1), true, 0)
 	}
-	t.rels = append(t.rels, dRel{name: zzverif.Str("rel", 1, n, verifIdentAlphabet), expr: expr})
+	t.rels = append(t.rels, dRel{name: zzverif.Str("rel", 1, n, verifIdentAlpha()), expr: expr})
 	for i := 0; i < zzverif.Param("SIBLINGS", 1); i++ {
 		if zzverif.Choose("sibling", 2) == 1 {
-			t.rels = append(t.rels, dRel{name: zzverif.Str("rel", 1, n, verifIdentAlphabet), expr: &dExpr{kind: 3, operands: []*dExpr{{kind: 1, name: "other"}}}})
+			t.rels = append(t.rels, dRel{name: zzverif.Str("rel", 1, n, verifIdentAlpha()), expr: &dExpr{kind: 3, operands: []*dExpr{{kind: 1, name: "other"}}}})
 		}
 	}
 	d.types = append(d.types, t)
 	if zzverif.Param("EXTEND", 0) == 1 && zzverif.Choose("second-extend", 2) == 1 {
-		d.types = append(d.types, dType{name: zzverif.Str("type", 1, n, verifIdentAlphabet), extend: true,
+		d.types = append(d.types, dType{name: zzverif.Str("type", 1, n, verifIdentAlpha()), extend: true,
 			rels: []dRel{{name: "x", expr: &dExpr{kind: 3, operands: []*dExpr{{kind: 1, name: "other"}}}}}})
 	}
+	genConds(d, n)
+	return d
+}
+
+func genConds(d *dDoc, n int) {
 	nc := zzverif.Choose("conditions", zzverif.Param("CONDS", 1)+1)
 	for i := 0; i < nc; i++ {
-		c := dCond{name: zzverif.Str("cond", 1, n, verifIdentAlphabet), expr: []string{"x", " ", "<", " ", "1"}}
+		c := dCond{name: zzverif.Str("cond", 1, n, verifIdentAlpha()), expr: []string{"x", " ", "<", " ", "1"}}
 		if zzverif.Param("EXPRS", 0) == 1 {
 			switch k := zzverif.Choose("expression-layout", 6); k {
 			case 1:
@@ -184,7 +202,6 @@ func genDoc() *dDoc {
 		}
 		d.conds = append(d.conds, c)
 	}
-	return d
 }
 
 // docDuplicates: the listener-level rule violations of the document.
